@@ -373,7 +373,13 @@ impl Scenario for Stream {
                 let mut regs = Vec::new();
                 let mut cur = 0x2000u64;
                 for _ in 0..n {
-                    let size = c.pick(&sizes);
+                    // rarely a region longer than 64 KiB, so that one piece of a transfer can be that long
+                    let size = if c.a(60) == 0 {
+                        c.count("probe.stream_world_with_a_region_longer_than_64_kib");
+                        [66_000usize, 140_000][c.a(2) as usize]
+                    } else {
+                        c.pick(&sizes)
+                    };
                     regs.push(RegSpec { base: cur, size, file_off: None });
                     cur += size as u64 + if c.a(4) == 0 { 1 + c.a(64) as u64 } else { 0 };
                 }
@@ -680,9 +686,10 @@ fn gen_count(room: usize) -> usize {
         2 => room + 1 + c.a(9) as usize,
         3 => room.saturating_sub(1),
         4 => 1 + c.a(16) as usize,
-        _ => 1 + c.a((room + 8).min(3 * 4096) as u32) as usize,
+        _ => 1 + c.a(if room > 20_000 { room + 8 } else { (room + 8).min(3 * 4096) } as u32) as usize,
     })
-    .clamp(1, 3 * 4096)
+    // (counts beyond 12 KiB only where the room itself is far beyond it: the long regions)
+    .clamp(1, if room > 20_000 { room + 10 } else { 3 * 4096 })
 }
 
 fn first_diff(a: &[Vec<u8>], b: &[Vec<u8>]) -> (usize, usize) {
